@@ -2,6 +2,7 @@
 use crate::runner::{PropCtx, Verdict};
 use serde_json::Value;
 
+pub mod c01;
 pub mod c03;
 
 pub struct Prop {
@@ -12,6 +13,7 @@ pub struct Prop {
 }
 
 pub const PROPS: &[Prop] = &[
+    Prop { id: "C01", level: "exploration", run: c01::run, replay: c01::replay },
     Prop { id: "C03", level: "exploration", run: c03::run, replay: c03::replay },
 ];
 
